@@ -4,7 +4,7 @@ CONSTANTS
   MaxImg = 3
   Chain3Fmt = FALSE
   Defects = {}
-  AsIs = {"zero_dim", "float_scale", "vresize_overshoot"}
+  AsIs = {"float_scale"}
 INIT Init
 NEXT Next
 INVARIANT InvNoFail
